@@ -1,4 +1,5 @@
 import DFV.Model.C04
+import DFV.Model.C11
 /-!
 C19 model: `discretisedfield/tools/tools.py` and `util.bergluescher_angle`.
 
@@ -11,6 +12,9 @@ C19 model: `discretisedfield/tools/tools.py` and `util.bergluescher_angle`.
 * `topological_charge`, `emergent_magnetic_field`, `neighbouring_cell_angle`
   (clipped dot products + the shortened mesh; `acos` is a parameter),
   `max_neighbouring_cell_angle`, `count_bps`;
+* `demag_field` a second time, code-shaped (`demagFieldFFT`): zero-padding, C11's `fftn`, the nine
+  products of tensor and magnetisation spectra, C11's `ifftn`, crop — over any ring carrying roots
+  of unity (the driver uses C11's formal root-of-unity polynomials);
 * demagnetisation tensor: the Newell functions `_f`, `_g` as *symbolic* term lists (rational
   coefficient × leaf `asinh(a/√b)`, `atan(a/(b√c))`, `√a` with the code's zero guards), the
   64-point stencil `_N_element`, the six components of `_N`, both tensor builders
@@ -626,5 +630,52 @@ def linConv (T : NDA (List Rat)) (f : Fld) (a : Nat) (q : List Nat) : Rat :=
 def uniF (m : Mesh) (M : Rat) (a : Nat) : Fld :=
   { mesh := m, nvdim := 3, data := NDA.const m.n (tab 3 fun b => if b = a then M else 0),
     valid := NDA.const m.n true, vdims := some ["x", "y", "z"], vmap := [], unit := none }
+
+/-! ## demagnetising field, code-shaped: zero-pad, `fftn`, products, `ifftn`, crop -/
+
+section fft
+variable {R : Type} [Zero R] [One R] [Add R] [Mul R]
+
+/-- `m.pad({x: (0, n0−1), y: (0, n1−1), z: (0, n2−1)}, mode="constant")` as an array over `R`
+(`ι` embeds the rationals) -/
+def padArr (ι : Rat → R) (f : Fld) : NDA (List R) :=
+  ⟨[2 * f.mesh.nAt 0 - 1, 2 * f.mesh.nAt 1 - 1, 2 * f.mesh.nAt 2 - 1], fun r => tab 3 fun b => ι (padded f b r)⟩
+
+/-- a rational array of component lists as an array over `R` -/
+def embArr (ι : Rat → R) (T : NDA (List Rat)) : NDA (List R) := T.map fun v => v.map ι
+
+/-- `hx_fft, hy_fft, hz_fft` (`tensor.ft_xx * m_fft.ft_x + tensor.ft_xy * m_fft.ft_y + …`) stacked: the
+product of the tensor spectrum `That` and the magnetisation spectrum `Mhat`, cell by cell -/
+def specProd (That Mhat : NDA (List R)) : NDA (List R) :=
+  ⟨That.shape, fun k => tab 3 fun a =>
+    C11.compA That (symIdx a 0) k * C11.compA Mhat 0 k + C11.compA That (symIdx a 1) k * C11.compA Mhat 1 k
+      + C11.compA That (symIdx a 2) k * C11.compA Mhat 2 k⟩
+
+/-- `H.ifftn()` of the products: `That` is the tensor spectrum handed to `demag_field`, `Mpad` the
+padded magnetisation; `fftn`/`ifftn` are C11's array transforms (shifts included).  The two
+intermediate arrays are materialised (`force`: every entry evaluated once, the identity on the
+cells of the array). -/
+def demagFFTArr (ρs : List (C11.Root R)) (That Mpad : NDA (List R)) : NDA (List R) :=
+  C11.ifftnArr ρs 3 ((specProd That ((C11.fftnArr ρs 3 Mpad).force [])).force [])
+
+/-- `H.array[n0−1:, n1−1:, n2−1:, :]` for the mesh `m` of the magnetisation -/
+def cropArr (A : NDA (List R)) (m : Mesh) : NDA (List R) :=
+  ⟨m.n, fun q => A.get [q.getD 0 0 + (m.nAt 0 - 1), q.getD 1 0 + (m.nAt 1 - 1), q.getD 2 0 + (m.nAt 2 - 1)]⟩
+
+/-- `demag_field(m, tensor)` following the code: checks, pad, transform, multiply, transform back,
+crop `[n0−1:, n1−1:, n2−1:]`; returns the mesh and the cropped array over `R` (the code takes `.real`) -/
+def demagFieldFFT (ι : Rat → R) (ρs : List (C11.Root R)) (That : NDA (List R)) (f : Fld) : M (Mesh × NDA (List R)) :=
+  if f.mesh.ndim ≠ 3 then .error .value
+  else if f.nvdim ≠ 3 then .error .value
+  else if f.mesh.region.dims ≠ ["x", "y", "z"] then .error .value
+  else if That.shape ≠ [2 * f.mesh.nAt 0 - 1, 2 * f.mesh.nAt 1 - 1, 2 * f.mesh.nAt 2 - 1] then .error .value
+  else
+    .ok (f.mesh, cropArr (demagFFTArr ρs That (padArr ι f)) f.mesh)
+
+/-- the tensor spectrum `demag_tensor` hands over: `fftn` of the real-space tensor (six components) -/
+def tensorSpectrum (ι : Rat → R) (ρs : List (C11.Root R)) (T : NDA (List Rat)) : NDA (List R) :=
+  C11.fftnArr ρs 6 (embArr ι T)
+
+end fft
 
 end DFV.C19
